@@ -1,6 +1,6 @@
 (* P19b stage 3, part 4: the finished-input-request step keeps the incremental invariant. *)
 From LLB Require Import Engine.Rules Engine.Spec Engine.SpecInv1 Engine.Impl Engine.ImplProofs Engine.ImplProofsSticky Engine.ImplProofsMono Engine.ImplProofsInv
-  Engine.ImplProofsInv2 Engine.ImplProofsInv3 Engine.ImplProofsInv7 Engine.ImplProofsInv8 Engine.ImplProofsInv9
+  Engine.ImplProofsInv2 Engine.ImplProofsInv3 Engine.ImplProofsInv5 Engine.ImplProofsInv6 Engine.ImplProofsInv7 Engine.ImplProofsInv8 Engine.ImplProofsInv9
   Engine.ImplVal1 Engine.ImplVal2 Engine.ImplVal3 Engine.ImplVal4 Engine.ImplInc1 Engine.ImplInc2 Engine.ImplInc3.
 From Coq Require Import Arith Lia.
 Local Open Scope N_scope.
@@ -57,3 +57,293 @@ Proof.
     destruct H1 as (y & Hy & E1 & E2). destruct (decrement_wait_self s1 t y Hy Hn) as (n & Hy').
     exists (ti_with_wait n y). split; auto.
 Qed.
+
+(* the delivery of a (non order-only) request, from the facts about the request alone *)
+Lemma step_fininreq_delivered_gen s rq rest t ti : Inv rules ctx0 s -> is_fininreq s = rq :: rest -> iq_task rq = Some t ->
+  iq_order rq = false -> task_of s t = Some ti -> key_of_slot t (iq_slot rq) = Some (iq_input rq) -> (iq_slot rq < length (ti_slots ti))%nat ->
+  res_value (res_of s (iq_input rq)) = cvK (iq_input rq) -> nf (step_fininreq rules s) ->
+  exists ti' ks, delivered s (step_fininreq rules s) rq rest t ti ti' ks.
+Proof.
+  intros HI Hq Ht Hord Hg Hkey Hsl Hval Hn. unfold step_fininreq in *. rewrite Hq in *. unfold deliver in *. rewrite Ht, Hord in *. cbn zeta in *.
+  set (s0 := upd_fininreq s rest) in *. set (slot := iq_slot rq). set (inp := iq_input rq).
+  fold slot inp in Hkey, Hsl, Hval.
+  destruct (cvK_some rules env F rank Hrank inp) as (cv0 & Hcv).
+  fold inp slot in Hn |- *. assert (Hv0 : res_value (res_of s0 inp) = cvK inp) by exact Hval. rewrite Hv0 in *.
+  set (s1 := provide_value rules s0 t slot inp (cvK inp)) in *.
+  assert (Hn1 : nf s1) by (eapply sticky_decrement_wait; eauto).
+  destruct (decrement_wait_views s1 t Hn) as (W1 & W2 & Wx & W3 & W4 & W5 & W6 & W7 & W8).
+  (* provideValue *)
+  set (tis := ti_with_slots (set_nth (ti_slots ti) slot (cvK inp)) ti) in *.
+  set (se := iemit s0 (EProvide t slot inp (cvK inp))) in *.
+  assert (Hs1 : s1 = match branch_fire rules t ti slot (cvK inp) with
+                     | None => set_ti se t tis
+                     | Some ks => branch_reqs (set_ti se t (ti_with_branched true tis)) t ks end).
+  { unfold s1, provide_value. cbn zeta. fold se. change (aget (is_tasks se) t) with (aget (is_tasks s) t). unfold task_of in Hg. rewrite Hg.
+    now rewrite (store_slot_in_range slot (cvK inp) ti Hsl). }
+  clearbody s1.
+  destruct (branch_fire rules t ti slot (cvK inp)) as [ks|] eqn:Ef; subst s1.
+  - (* the branch fires *)
+    rewrite Hcv in Ef.
+    assert (Hlt : (slot < n1 t)%nat).
+    { unfold branch_fire in Ef. destruct (r_br (rules t)) as [[[i a] b]|]; [|discriminate]. destruct (negb (ti_branched ti) && Nat.eqb slot i) eqn:E1; [|discriminate].
+      apply Bool.andb_true_iff in E1. destruct E1 as [_ E1]. apply Nat.eqb_eq in E1. subst i. cbn [andb] in Ef.
+      destruct (Nat.ltb slot (length (r_req (rules t)))) eqn:E2; [|discriminate]. now apply Nat.ltb_lt in E2. }
+    destruct (branch_fire_bkK rules env F rank t ti slot inp cv0 ks Hkey Hcv Hlt Ef) as (Hks & Hb & a & b & Hbr).
+    set (sb := set_ti se t (ti_with_branched true tis)) in *.
+    assert (Hgb : task_of sb t = Some (ti_with_branched true tis)) by (unfold sb, task_of; autorewrite with iv; now rewrite aget_aset_same).
+    pose proof (issues_branch_reqs ks sb t _ Hgb Hn1) as [A1 A2 A3 A4 A5 A6 A7 A8 A9 A10].
+    destruct (A4 _ Hgb) as (n & Hg1). set (s1 := branch_reqs sb t ks) in *.
+    destruct (tcore_task s1 (decrement_wait s1 t) t _ (W2 t) Hg1) as (y & Hy & Hcc). apply core_fields in Hcc. destruct Hcc as (C1 & C2 & C3 & C4).
+    cbn [ti_with_wait ti_with_slots ti_with_branched ti_slots ti_branched ti_pending ti_reqby tis] in C1, C2, C3, C4.
+    exists y, ks. constructor.
+    + exact Hq.
+    + intros k. rewrite W1, A1. reflexivity.
+    + intros t0 Hne. rewrite (Wx t0 Hne), (A3 t0 Hne). unfold sb, se, task_of. autorewrite with iv. rewrite aget_aset. apply N.eqb_neq in Hne. now rewrite Hne.
+    + exact Hy.
+    + exact C1.
+    + exact C3.
+    + exact C4.
+    + rewrite W3, A2. cbn [ti_with_branched tis ti_with_slots ti_slots]. now rewrite length_set_nth.
+    + rewrite W4, A5. reflexivity.
+    + rewrite W5, A6. reflexivity.
+    + rewrite W6, A7. reflexivity.
+    + rewrite W7, A9. reflexivity.
+    + rewrite W8, A8. reflexivity.
+    + left. fold slot. repeat split; auto. exists a, b. auto.
+  - (* no branch request *)
+    set (s1 := set_ti se t tis) in *.
+    assert (Hg1 : task_of s1 t = Some tis) by (unfold s1, task_of; autorewrite with iv; now rewrite aget_aset_same).
+    destruct (tcore_task s1 (decrement_wait s1 t) t _ (W2 t) Hg1) as (y & Hy & Hcc). apply core_fields in Hcc. destruct Hcc as (C1 & C2 & C3 & C4).
+    cbn [tis ti_with_slots ti_slots ti_branched ti_pending ti_reqby] in C1, C2, C3, C4.
+    exists y, []. constructor.
+    + exact Hq.
+    + intros k. rewrite W1. unfold s1. now autorewrite with iv.
+    + intros t0 Hne. rewrite (Wx t0 Hne). unfold s1, se, task_of. autorewrite with iv. rewrite aget_aset. apply N.eqb_neq in Hne. now rewrite Hne.
+    + exact Hy.
+    + cbn [repeat length]. now rewrite app_nil_r.
+    + exact C3.
+    + exact C4.
+    + rewrite W3. unfold s1. autorewrite with iv. cbn [mk_reqs]. now rewrite app_nil_r.
+    + rewrite W4. unfold s1. now autorewrite with iv.
+    + rewrite W5. unfold s1. now autorewrite with iv.
+    + rewrite W6. unfold s1. now autorewrite with iv.
+    + rewrite W7. unfold s1. now autorewrite with iv.
+    + rewrite W8. unfold s1. now autorewrite with iv.
+    + right. repeat split; auto. fold slot. now apply (branch_fire_none rules t ti slot (cvK inp)).
+Qed.
+
+Lemma BInv_delivered root x s s' rq rest t ti ti' ks : BInv root x s -> sreq_scanning s -> iq_task rq = Some t -> iq_order rq = false ->
+  task_of s t = Some ti -> delivered s s' rq rest t ti ti' ks -> ti_disc ti' = ti_disc ti -> ti_deferred ti' = ti_deferred ti -> BInv root x s'.
+Proof.
+  intros (HT & HC & HS) Hss Ht Hord Hg [D1 D2 D3 D4 D5 D6 D7 D8 D9 D10 D11 D12 D13 D14] Edisc Edef.
+  destruct HT as [T1 T2 T3 T4 T5 T6 T7].
+  set (slot := iq_slot rq) in *. set (inp := iq_input rq) in *. set (sl := ti_slots ti) in *.
+  assert (Hrq : Oreq2 s rq) by (right; right; rewrite D1; now left).
+  destruct (T4 rq Hrq) as [Hw _]. destruct (Hw t Ht Hord) as (Hkey & ti0 & Hg0 & Hsl). rewrite Hg in Hg0. inversion Hg0. subst ti0. fold slot inp sl in Hkey, Hsl. clear Hw Hg0.
+  destruct (cvK_some rules env F rank Hrank inp) as (cv0 & Hcv).
+  assert (Hlen' : length (ti_slots ti') = (length sl + length ks)%nat) by (rewrite D5, app_length, length_set_nth, repeat_length; reflexivity).
+  assert (Hnth : forall i, (i < length sl)%nat -> nth_error (ti_slots ti') i = if Nat.eqb i slot then Some (cvK inp) else nth_error sl i).
+  { intros i Hi. rewrite D5, nth_error_app1 by (rewrite length_set_nth; exact Hi). now apply nth_error_set_nth. }
+  assert (Hnth2 : forall i, (length sl <= i)%nat -> (i < length sl + length ks)%nat -> nth_error (ti_slots ti') i = Some None).
+  { intros i H1 H2. rewrite D5, nth_error_app2 by (rewrite length_set_nth; exact H1). rewrite length_set_nth. apply nth_error_repeat_none. lia. }
+  assert (HK : forall k, kind_of s' k = kind_of s k) by (intros; unfold kind_of; now rewrite D2).
+  assert (HR : forall k, res_of s' k = res_of s k) by (intros; unfold res_of; now rewrite D2).
+  assert (Hcurk : forall k, curk s' k <-> curk s k) by (intros; now apply curk_same).
+  assert (Hdeps : forall k, deps s' k = deps s k) by (intros; unfold deps; now rewrite HR).
+  assert (HU1 : forall y, Unrouted s y -> Unrouted s' y).
+  { intros y [H|(k & H)]; [left; rewrite D8; apply in_or_app; now left|right; exists k; now rewrite D2]. }
+  assert (HU2 : forall y, Unrouted s' y -> Unrouted s y \/ In y (mk_reqs t ks (length sl) false)).
+  { intros y [H|(k & H)]; [rewrite D8 in H; apply in_app_or in H; destruct H; [left; now left|now right]|left; right; exists k; now rewrite <- D2]. }
+  assert (O1' : forall y, Oreq2 s y -> y = rq \/ Oreq2 s' y).
+  { intros y [H|[(t0 & z & Hz & Hin)|H]].
+    - right. left. now apply HU1.
+    - right. right. left. destruct (N.eq_dec t0 t) as [->|Hn0].
+      + rewrite Hg in Hz. inversion Hz. subst z. exists t, ti'. split; auto. now rewrite D7.
+      + exists t0, z. rewrite (D3 t0 Hn0). auto.
+    - rewrite D1 in H. destruct H as [H|H]; [now left|right; right; right; now rewrite D9]. }
+  assert (O1 : forall y, Oreq2 s y -> y <> rq -> Oreq2 s' y) by (intros y Hy Hne; destruct (O1' y Hy); [contradiction|auto]).
+  assert (O2 : forall y, Oreq2 s' y -> Oreq2 s y \/ In y (mk_reqs t ks (length sl) false)).
+  { intros y [H|[(t0 & z & Hz & Hin)|H]].
+    - destruct (HU2 y H); [left; now left|now right].
+    - left. right. left. destruct (N.eq_dec t0 t) as [->|Hn0].
+      + rewrite D4 in Hz. inversion Hz. subst z. exists t, ti. split; auto. now rewrite <- D7.
+      + exists t0, z. rewrite <- (D3 t0 Hn0). auto.
+    - left. right. right. rewrite D1. right. now rewrite <- D9. }
+  assert (Hexists : forall t0 z, task_of s t0 = Some z -> exists y, task_of s' t0 = Some y /\ (length (ti_slots z) <= length (ti_slots y))%nat).
+  { intros t0 z Hz. destruct (N.eq_dec t0 t) as [->|Hn0].
+    - rewrite Hg in Hz. inversion Hz. subst z. exists ti'. split; auto. fold sl. lia.
+    - exists z. rewrite (D3 t0 Hn0). auto. }
+  assert (Hinp : curk s inp) by (apply T5; rewrite D1; now left).
+  (* a recorded dependency whose request is the delivered one is complete *)
+  assert (Hdc : forall t0 d, (curk s (d_key d) \/ exists y, Oreq2 s y /\ iq_task y = Some t0 /\ iq_input y = d_key d) ->
+                  curk s' (d_key d) \/ exists y, Oreq2 s' y /\ iq_task y = Some t0 /\ iq_input y = d_key d).
+  { intros t0 d [H|(y & Hy & H1 & H2)]; [left; now apply Hcurk|].
+    destruct (O1' y Hy) as [->|Hy']; [left; apply Hcurk; now rewrite <- H2|right; exists y; auto]. }
+  split; [|split].
+  - constructor.
+    + congruence.
+    + congruence.
+    + intros k Hc. unfold stored. rewrite HR. now apply T3, Hcurk.
+    + intros y Ho. destruct (O2 y Ho) as [Hold|Hnew].
+      * destruct (T4 y Hold) as [Hw Hsg]. split; auto. apply (rq_wf_sub rules env F rank s s'); auto.
+      * destruct (mk_reqs_inv _ _ _ _ _ Hnew) as (j & z & Hj & ->). split; [|reflexivity]. intros t0 Ht0 _. cbn [iq_task iq_slot iq_input] in *. inversion Ht0. subst t0.
+        destruct D14 as [(Hb & Hb' & Hks & a & b & Hbr & Hlt)|(Hks & _)]; [|subst ks; now destruct j].
+        assert (Hsl0 : length sl = (n1 t + n2 t)%nat) by (pose proof (k2_len _ _ _ _ _ _ _ (T6 t ti Hg)) as K1; fold sl in K1; rewrite Hb in K1; lia).
+        split.
+        -- unfold ImplVal1.key_of_slot. fold (n1 t) (n2 t). rewrite Hsl0.
+           assert (E1 : Nat.ltb (n1 t + n2 t + j) (n1 t) = false) by (apply Nat.ltb_ge; lia).
+           assert (E2 : Nat.ltb (n1 t + n2 t + j) (n1 t + n2 t) = false) by (apply Nat.ltb_ge; lia).
+           rewrite E1, E2. replace (n1 t + n2 t + j - n1 t - n2 t)%nat with j by lia. now rewrite <- Hks.
+        -- exists ti'. split; auto. rewrite Hlen'. assert (j < length ks)%nat by (apply nth_error_Some; congruence). lia.
+    + intros y Hin. apply Hcurk, T5. rewrite D1. right. now rewrite <- D9.
+    + intros t0 y Hy. destruct (N.eq_dec t0 t) as [->|Hn0].
+      * rewrite D4 in Hy. inversion Hy. subst y. destruct (T6 t ti Hg) as [K1 K2 K3 K4 K5 K6 K7 K8 K9 K10 K11]. fold sl in K1, K2, K3, K4, K7. constructor.
+        -- rewrite Hlen', K1. destruct D14 as [(Hb & Hb' & Hks & _)|(Hks & Hb' & _)]; rewrite Hb'; [rewrite Hb, Hks; lia|rewrite Hks; cbn [length]; lia].
+        -- intros i v z Hv Hz. destruct (Nat.lt_ge_cases i (length sl)) as [Hi|Hi].
+           ++ rewrite (Hnth i Hi) in Hv. destruct (Nat.eqb i slot) eqn:E; [|eauto]. apply Nat.eqb_eq in E. subst i.
+              rewrite Hkey in Hz. inversion Hz. subst z. now inversion Hv.
+           ++ destruct (Nat.lt_ge_cases i (length sl + length ks)) as [Hi2|Hi2]; [rewrite (Hnth2 i Hi Hi2) in Hv; discriminate|].
+              assert (Hn : nth_error (ti_slots ti') i = None) by (apply nth_error_None; lia). congruence.
+        -- intros i Hu Hn. destruct (Nat.lt_ge_cases i (length sl)) as [Hi|Hi].
+           ++ rewrite (Hnth i Hi) in Hn. destruct (Nat.eqb i slot) eqn:E; [rewrite Hcv in Hn; discriminate|]. apply Nat.eqb_neq in E.
+              destruct (K3 i Hu Hn) as (z & Hoz & Hzt & Hzo & Hzs). exists z. repeat split; auto. apply O1; auto. intros ->. fold slot in Hzs. congruence.
+           ++ assert (Hi2 : (i < length sl + length ks)%nat) by (rewrite <- Hlen'; apply nth_error_Some; congruence).
+              assert (Hj : exists z, nth_error ks (i - length sl) = Some z).
+              { destruct (nth_error ks (i - length sl)) eqn:E; [eauto|]. apply nth_error_None in E. lia. }
+              destruct Hj as (z & Hz). exists (mkIReq (Some t) (length sl + (i - length sl)) z false false). cbn [iq_task iq_order iq_slot]. repeat split; auto; [|lia].
+              left. left. rewrite D8. apply in_or_app. right. now apply in_mk_reqs.
+        -- intros Hb' i a b Hbr Hlt. destruct D14 as [(_ & Hb'' & _)|(Hks & Hbeq & Hne)]; [congruence|].
+           rewrite Hbeq in Hb'. assert (Hi : (i < length sl)%nat) by (rewrite K1; fold (n1 t); lia).
+           rewrite (Hnth i Hi). pose proof (Hne Hb' i a b Hbr Hlt) as Hns. apply Nat.eqb_neq in Hns. fold slot in Hns. rewrite Hns. now apply (K4 Hb' i a b).
+        -- intros v. rewrite D6. apply K5.
+        -- rewrite D10. unfold stored. rewrite HR. apply K6.
+        -- intros i z Hi Hz. rewrite Hdeps. rewrite Hlen' in Hi. destruct (Nat.lt_ge_cases i (length sl)) as [Hi1|Hi1].
+           ++ destruct (K7 i z Hi1 Hz) as [(y & Hy1 & Hy2)|Hr]; [left; exists y; split; [now apply HU1|auto]|now right].
+           ++ assert (Hj : exists w, nth_error ks (i - length sl) = Some w).
+              { destruct (nth_error ks (i - length sl)) eqn:E; [eauto|]. apply nth_error_None in E. lia. }
+              destruct Hj as (w & Hw). left. exists (mkIReq (Some t) (length sl + (i - length sl)) w false false). cbn [iq_task iq_order iq_slot].
+              split; [left; rewrite D8; apply in_or_app; right; now apply in_mk_reqs|]. repeat split; auto. lia.
+        -- intros d Hd. rewrite Hdeps in Hd. apply Hdc, K8, Hd.
+        -- intros d. rewrite Hdeps. apply K9.
+        -- rewrite Edisc. exact K10.
+        -- rewrite D10, HR. exact K11.
+      * rewrite (D3 t0 Hn0) in Hy. destruct (T6 t0 y Hy) as [J1 J2 J3 J4 J5 J6 J7 J8 J9 J10 J11]. constructor.
+        -- exact J1.
+        -- exact J2.
+        -- intros i Hu Hn. destruct (J3 i Hu Hn) as (z & Hoz & Hzt & Hz'). exists z. repeat split; auto; try apply Hz'. apply O1; auto. intros ->. congruence.
+        -- exact J4.
+        -- exact J5.
+        -- rewrite D10. unfold stored. rewrite HR. exact J6.
+        -- intros i z Hi Hz. rewrite Hdeps. destruct (J7 i z Hi Hz) as [(w & Hw1 & Hw2)|Hr]; [left; exists w; split; [now apply HU1|auto]|now right].
+        -- intros d Hd. rewrite Hdeps in Hd. apply Hdc, J8, Hd.
+        -- intros d. rewrite Hdeps. apply J9.
+        -- exact J10.
+        -- rewrite D10, HR. exact J11.
+    + destruct T7 as [H|[(k & H)|[H|H]]]; [left; rewrite D8; apply in_or_app; now left|right; left; exists k; now rewrite D2| |].
+      * right. right. left. now rewrite (in_progress_of_kind s s' root (HK root)).
+      * right. right. right. now apply Hcurk.
+  - apply (BC_change rules F (fun _ => false) s s'); auto; try discriminate. intros k. rewrite D2. apply HC.
+  - apply (BS_change rules env F rank (fun _ => false) x s s'); auto; try discriminate.
+    + intros y [H|[(k & H)|(t0 & z & Hz & H)]]; [left; congruence|right; left; exists k; now rewrite <- D2|right; right].
+      destruct (N.eq_dec t0 t) as [->|Hn0].
+      * rewrite D4 in Hz. inversion Hz. subst z. exists t, ti. split; auto. now rewrite <- Edef.
+      * exists t0, z. rewrite <- (D3 t0 Hn0). auto.
+    + intros k _. now rewrite D2.
+    + intros k [(y & H1 & H2)|(y & H1 & H2)]; [left; exists y; now rewrite D11|right; exists y; rewrite D8; split; auto; apply in_or_app; now left].
+Qed.
+
+(* two task records that differ at most in the wait count *)
+Definition same_task (y z : tinfo) : Prop :=
+  ti_slots z = ti_slots y /\ ti_branched z = ti_branched y /\ ti_pending z = ti_pending y /\ ti_reqby z = ti_reqby y /\ ti_disc z = ti_disc y /\
+  ti_deferred z = ti_deferred y.
+
+(* an order-only request leaves finishedInputRequests *)
+Lemma BInv_drop_order root x s s' rq rest : BInv root x s -> sreq_scanning s -> is_fininreq s = rq :: rest -> iq_order rq = true ->
+  (forall k, rinfo_of s' k = rinfo_of s k) ->
+  (forall t y, task_of s t = Some y -> exists z, task_of s' t = Some z /\ same_task y z) ->
+  (forall t z, task_of s' t = Some z -> exists y, task_of s t = Some y /\ same_task y z) ->
+  is_inreq s' = is_inreq s -> is_fininreq s' = rest ->
+  is_fintasks s' = is_fintasks s -> is_toscan s' = is_toscan s -> is_usedb s' = is_usedb s -> is_epoch s' = is_epoch s -> BInv root x s'.
+Proof.
+  intros (HT & HC & HS) Hss Hq Hord HR0 Hfw Hbw Hi Hf Hft Hts Hu He.
+  assert (HK : forall k, kind_of s' k = kind_of s k) by (intros; unfold kind_of; now rewrite HR0).
+  assert (HR : forall k, res_of s' k = res_of s k) by (intros; unfold res_of; now rewrite HR0).
+  assert (Hcurk : forall k, curk s' k <-> curk s k) by (intros; now apply curk_same).
+  assert (Hdeps : forall k, deps s' k = deps s k) by (intros; unfold deps; now rewrite HR).
+  assert (HU : forall y, Unrouted s y <-> Unrouted s' y) by (apply Unrouted_same; auto; intros k; now rewrite HR0).
+  assert (O1' : forall y, Oreq2 s y -> y = rq \/ Oreq2 s' y).
+  { intros y [H|[(t0 & z & Hz & Hin)|H]].
+    - right. left. now apply HU.
+    - right. right. left. destruct (Hfw t0 z Hz) as (w & Hw & _ & _ & _ & Hrb & _). exists t0, w. split; auto. now rewrite Hrb.
+    - rewrite Hq in H. destruct H as [H|H]; [now left|right; right; right; now rewrite Hf]. }
+  assert (O2 : forall y, Oreq2 s' y -> Oreq2 s y).
+  { intros y [H|[(t0 & z & Hz & Hin)|H]].
+    - left. now apply HU.
+    - right. left. destruct (Hbw t0 z Hz) as (w & Hw & _ & _ & _ & Hrb & _). exists t0, w. split; auto. now rewrite <- Hrb.
+    - right. right. rewrite Hq. right. now rewrite <- Hf. }
+  destruct HT as [T1 T2 T3 T4 T5 T6 T7].
+  assert (Hinp : curk s (iq_input rq)) by (apply T5; rewrite Hq; now left).
+  split; [|split].
+  - constructor.
+    + congruence.
+    + congruence.
+    + intros k Hc. unfold stored. rewrite HR. now apply T3, Hcurk.
+    + intros y Ho. destruct (T4 y (O2 y Ho)) as [Hw Hsg]. split; auto. apply (rq_wf_sub rules env F rank s s'); auto.
+      intros t0 z Hz. destruct (Hfw t0 z Hz) as (w & Hw' & Hs & _). exists w. split; auto. rewrite Hs. lia.
+    + intros y Hin. apply Hcurk, T5. rewrite Hq. right. now rewrite <- Hf.
+    + intros t0 z Hz. destruct (Hbw t0 z Hz) as (y & Hy & E1 & E2 & E3 & E4 & E5 & E6). destruct (T6 t0 y Hy) as [J1 J2 J3 J4 J5 J6 J7 J8 J9 J10 J11]. constructor.
+      * now rewrite E1, E2.
+      * rewrite E1. exact J2.
+      * rewrite E1. intros i Hu' Hn. destruct (J3 i Hu' Hn) as (w & Hw1 & Hw2 & Hw3 & Hw4). exists w. repeat split; auto.
+        destruct (O1' w Hw1) as [->|H]; [congruence|exact H].
+      * rewrite E1, E2. exact J4.
+      * rewrite E3. exact J5.
+      * rewrite Hft. unfold stored. rewrite HR. exact J6.
+      * rewrite E1. intros i w Hi' Hw. rewrite Hdeps. destruct (J7 i w Hi' Hw) as [(r & Hr1 & Hr2)|Hr]; [left; exists r; split; [now apply HU|auto]|now right].
+      * intros d Hd. rewrite Hdeps in Hd. destruct (J8 d Hd) as [H|(r & Hr1 & Hr2 & Hr3)]; [left; now apply Hcurk|].
+        destruct (O1' r Hr1) as [->|H]; [left; apply Hcurk; now rewrite <- Hr3|right; exists r; auto].
+      * intros d. rewrite Hdeps. apply J9.
+      * now rewrite E5.
+      * rewrite Hft, HR. exact J11.
+    + rewrite Hi, (in_progress_of_kind s s' root (HK root)). destruct T7 as [H|[(k & H)|[H|H]]]; auto; [right; left; exists k; now rewrite HR0|right; right; right; now apply Hcurk].
+  - apply (BC_change rules F (fun _ => false) s s'); auto; try discriminate. intros k. rewrite HR0. apply HC.
+  - apply (BS_change rules env F rank (fun _ => false) x s s'); auto; try discriminate.
+    + intros y [H|[(k & H)|(t0 & z & Hz & H)]]; [left; congruence|right; left; exists k; now rewrite <- HR0|right; right].
+      destruct (Hbw t0 z Hz) as (w & Hw & _ & _ & _ & _ & _ & Hd). exists t0, w. split; auto. now rewrite <- Hd.
+    + intros k _. now rewrite HR0.
+    + intros k [(y & H1 & H2)|(y & H1 & H2)]; [left; exists y; now rewrite Hts|right; exists y; now rewrite Hi].
+Qed.
+
+Lemma BInv_step_fininreq root x s : Inv rules ctx0 s -> BInv root x s -> nf (step_fininreq rules s) -> BInv root x (step_fininreq rules s).
+Proof.
+  intros HI HB Hn. destruct (is_fininreq s) as [|rq rest] eqn:Hq; [unfold step_fininreq; now rewrite Hq|].
+  pose proof (Inv_sreq_scanning rules ctx0 s HI) as Hss.
+  assert (Hnd : iq_task rq <> None). { destruct HI as (_ & _ & HI' & _). apply (i_fin_nd rules ctx0 s HI'). rewrite Hq. now left. }
+  destruct (iq_task rq) as [t|] eqn:Et; [|contradiction].
+  pose proof (Inv_pop_fininreq rules ctx0 s rq rest Hq HI) as HI1.
+  destruct (waiting_of_request rules (cx_set_fi ctx0 (rq :: cx_fi ctx0)) (upd_fininreq s rest) t rq (cx_fi ctx0) eq_refl Et HI1) as (ti & Hg & _).
+  change (aget (is_tasks (upd_fininreq s rest)) t) with (task_of s t) in Hg.
+  destruct (step_fininreq_self s rq rest t ti Hq Et Hg Hn) as (ti1 & Hg1 & Ed1 & Ef1).
+  destruct (iq_order rq) eqn:Eo.
+  - unfold step_fininreq in *. rewrite Hq in *. unfold deliver in *. rewrite Et, Eo in *. cbn zeta in *.
+    destruct (decrement_wait_views (upd_fininreq s rest) t Hn) as (W1 & W2 & Wx & W3 & W4 & W5 & W6 & W7 & W8).
+    assert (Hst : same_task ti ti1).
+    { destruct (tcore_task (upd_fininreq s rest) _ t ti (W2 t) Hg) as (z & Hz & Hc). rewrite Hg1 in Hz. inversion Hz. subst z.
+      apply core_fields in Hc. destruct Hc as (C1 & C2 & C3 & C4). unfold same_task. auto 7. }
+    apply (BInv_drop_order root x s _ rq rest HB Hss Hq Eo); auto.
+    + intros t0 y Hy. destruct (N.eq_dec t0 t) as [->|Hne].
+      * rewrite Hg in Hy. inversion Hy. subst y. exists ti1. auto.
+      * exists y. split; [rewrite (Wx t0 Hne); exact Hy|unfold same_task; auto 7].
+    + intros t0 z Hz. destruct (N.eq_dec t0 t) as [->|Hne].
+      * rewrite Hg1 in Hz. inversion Hz. subst z. exists ti. auto.
+      * exists z. split; [pose proof (Wx t0 Hne) as E; change (task_of (upd_fininreq s rest) t0) with (task_of s t0) in E; congruence|unfold same_task; auto 7].
+  - pose proof HB as (HT & _).
+    assert (Hrq : Oreq2 s rq) by (right; right; rewrite Hq; now left).
+    destruct (b_req _ _ _ _ _ _ HT rq Hrq) as [Hw _]. destruct (Hw t Et Eo) as (Hkey & ti0 & Hg0 & Hsl). rewrite Hg in Hg0. inversion Hg0. subst ti0.
+    assert (Hval : res_value (res_of s (iq_input rq)) = cvK (iq_input rq)).
+    { apply (b_cur _ _ _ _ _ _ HT). apply (b_fin _ _ _ _ _ _ HT). rewrite Hq. now left. }
+    destruct (step_fininreq_delivered_gen s rq rest t ti HI Hq Et Eo Hg Hkey Hsl Hval Hn) as (ti' & ks & HD).
+    pose proof (dl_self _ _ _ _ _ _ _ _ _ _ _ _ HD) as Hs'. rewrite Hg1 in Hs'. inversion Hs'. subst ti'.
+    apply (BInv_delivered root x s _ rq rest t ti ti1 ks HB Hss Et Eo Hg HD); auto.
+Qed.
+End Inc.
